@@ -71,8 +71,10 @@ var gensimComponents = map[string]string{
 	"go list, go/packages, go/parser, go/types, x/mod dirhash, go/format, gofumpt":     "real, unmodified",
 	"file system": "real tmpfs directory per world; outcome of an os call simulated only when a fault is scheduled (patched os package via build overlay)",
 	"map iteration order (all sites in gengo)": "real statements, order chosen by the schedule (simrt via build overlay)",
-	"process death":   "real SIGKILL of the worker process at the scheduled event",
-	"user generators": "scripted stubs implementing gengo.Generator / AliasGenerator / GeneratorNewer, plus the real devpkg generators",
+	"process death":       "real SIGKILL (or a self-delivered SIGTERM/SIGINT) of the worker process at the scheduled event",
+	"clock":               "time.Now/Since/Until/Sleep inside gengo's packages read the simulator's clock (build overlay): the machine's, a frozen one, one on which every recorded event takes a fixed time, or a seeded jumpy one; on this tree gengo reads it only to log durations (2 sites). File modification times are set by the driver's ops (kept, far past, future)",
+	"process environment": "working directory (module root or a package directory), a module below a symlinked directory, TMPDIR on another file system than the worlds, read-only and aged files: chosen per scenario",
+	"user generators":     "scripted stubs implementing gengo.Generator / AliasGenerator / GeneratorNewer, plus the real devpkg generators",
 	"map iteration inside dependencies (go/types, octohelm/x)": "real, not controlled (reaches gengo only through ordered APIs or re-ordered range sites)",
 }
 
